@@ -67,5 +67,5 @@ def parts(tier):
     from vp import golden
     gold = Part('golden', check_golden, enumerate=golden.enum_golden, chunk=1)
     if tier == 'quick':
-        return [gold, Part('chains', check, strategy=G.s_case_controlled(max_len=6, max_steps=30), examples=250, shards=4)]
-    return [gold, Part('chains', check, strategy=G.s_case_controlled(max_len=11, max_steps=120), examples=2500, shards=16)]
+        return [gold, Part('chains', check, strategy=G.s_case_controlled(max_len=6, max_steps=30, nonmultiple=True), examples=250, shards=4)]
+    return [gold, Part('chains', check, strategy=G.s_case_controlled(max_len=11, max_steps=120, nonmultiple=True), examples=2500, shards=16)]
